@@ -96,5 +96,10 @@ def tryExceptElse {α β ε : Type} (body : Except ε α) (caught : ε → Bool)
   match body with
   | .ok v => orelse v
   | .error e => if caught e then handler else .error e
+/-- reading a local that is bound on some paths only (`none` = unbound: `UnboundLocalError`) -/
+def bound {α : Type} (x : Option α) : Except Py.Exc α :=
+  match x with
+  | some v => .ok v
+  | none => .error .UnboundLocal
 
 end I18n.PyKit
